@@ -271,7 +271,10 @@ func PEP(shard, n int, kinds []int8, second bool, emit Emit) {
 
 // PPromo: a pawn on its 7th rank (all files), at most one enemy piece {Q,R,B,N} on the push / capture
 // squares, kings anywhere, both sides to move, both colours. Shards = own king square.
-func PPromo(shard, n int, emit Emit) {
+func PPromo(shard, n int, emit Emit) { PPromoFiles(shard, n, 8, emit) }
+
+// PPromoFiles: as PPromo with the pawn on files a..(a+files-1) only.
+func PPromoFiles(shard, n int, files int, emit Emit) {
 	for _, white := range []bool{true, false} {
 		sg := int8(1)
 		r7, r8 := 6, 7
@@ -279,7 +282,7 @@ func PPromo(shard, n int, emit Emit) {
 			sg = -1
 			r7, r8 = 1, 0
 		}
-		for f := 0; f < 8; f++ {
+		for f := 0; f < files; f++ {
 			for ok := 0; ok < 64; ok++ {
 				if ok%n != shard {
 					continue
@@ -404,4 +407,101 @@ func AllSeeds() []string {
 		}
 	}
 	return res
+}
+
+// PPromo2: a pawn on its 7th rank, own king on one of the given squares (nil = corners and their
+// neighbours), an enemy queen or rook anywhere and the enemy king anywhere; both colours, owner to move
+// (positions in which a promotion push is the only legal move live here). Shards = enemy king square.
+func PPromo2(shard, n int, ownKings []int, emit Emit) {
+	if ownKings == nil {
+		ownKings = []int{0, 1, 8, 9, 7, 6, 15, 14, 56, 57, 48, 49, 63, 62, 55, 54}
+	}
+	for _, white := range []bool{true, false} {
+		sg := int8(1)
+		r7 := 6
+		if !white {
+			sg = -1
+			r7 = 1
+		}
+		for ek := 0; ek < 64; ek++ {
+			if ek%n != shard {
+				continue
+			}
+			for _, ok := range ownKings {
+				if !kingsApart(ok, ek) {
+					continue
+				}
+				for f := 0; f < 8; f++ {
+					ps := r7*8 + f
+					if ps == ok || ps == ek {
+						continue
+					}
+					for _, k := range []int8{Q, R} {
+						for s := 0; s < 64; s++ {
+							if s == ok || s == ek || s == ps {
+								continue
+							}
+							p := fresh()
+							p.White = white
+							p.B[ok], p.B[ek], p.B[ps], p.B[s] = sg*K, -sg*K, sg*P, -sg*k
+							if p.Valid() {
+								emit(p)
+							}
+						}
+					}
+				}
+			}
+		}
+	}
+}
+
+// blockTemplates: cornered king with own pieces that cannot move; '?' is replaced by each officer kind
+// of the side to move; the enemy king goes on every free square. Mirrored in colour and left-right.
+var blockTemplates = []string{
+	"6?k/5p1p/5P1P/8/8/8/8/8 b",
+	"5?1k/5p1p/5P1P/8/8/8/8/8 b",
+	"7k/5p?p/5P1P/8/8/8/8/8 b",
+	"6k1/5p?p/5P1P/7P/8/8/8/8 b",
+	"?k6/pp6/PP6/8/8/8/8/8 b",
+	"k?6/p1p5/P1P5/8/8/8/8/8 b",
+}
+
+// PBlock: see blockTemplates. Shards = template index.
+func PBlock(shard, n int, emit Emit) {
+	for ti, t := range blockTemplates {
+		if ti%n != shard {
+			continue
+		}
+		for _, k := range []byte{'n', 'b', 'r', 'q'} {
+			fen := ""
+			for i := 0; i < len(t); i++ {
+				if t[i] == '?' {
+					fen += string(k)
+				} else {
+					fen += string(t[i])
+				}
+			}
+			base := refchess.MustFEN(fen + " - - 0 1")
+			for wk := 0; wk < 64; wk++ {
+				if base.B[wk] != 0 {
+					continue
+				}
+				p := base.Clone()
+				p.B[wk] = K
+				for _, q := range []*refchess.Pos{p, p.Mirror(), flipLR(p), flipLR(p.Mirror())} {
+					if q.Valid() {
+						emit(q)
+					}
+				}
+			}
+		}
+	}
+}
+
+func flipLR(p *refchess.Pos) *refchess.Pos {
+	q := p.Clone()
+	for s := 0; s < 64; s++ {
+		q.B[s] = p.B[s/8*8+7-s%8]
+	}
+	return q
 }
